@@ -3820,7 +3820,13 @@ class Device(utils.CompositeEventEmitter):
             )  # TODO: timeout
 
         def on_connection(connection):
-            pending_connection.set_result(connection)
+            if (
+                # An outgoing LE connection makes us the central: a connection
+                # that a remote device made to us is not the one we asked for
+                connection.transport == PhysicalTransport.LE
+                and connection.role == hci.Role.CENTRAL
+            ):
+                pending_connection.set_result(connection)
 
         def on_connection_failure(error: core.ConnectionError):
             pending_connection.set_exception(error)
